@@ -256,6 +256,7 @@ class EBB3:
             error_msg += f"Firmware {self.MIN_VERSION_STRING} or newer is required.\n"
             error_msg += "Visit https://bantam.tools/ndfw to update your firmware."
             self.record_error(error_msg)
+            self.disconnect() # Close the port; an unsupported board is not connected.
             return False
 
         # Special command to enter "future" syntax mode, before using self.command for everything.
